@@ -255,7 +255,7 @@ int main(void)
   /* C20: the documented destructor accepts the object */
   econf_file *z = econf_freeFile(ef);
   __CPROVER_assert(z == NULL, "C20: the free function returns NULL");
-#if !((OP == 4 || OP == 5) && N == 0 && !defined(START_NEW)) && !(defined(START_NEW) && (OP == 2 || OP == 5))
+#if !((OP >= 2 && OP <= 5) && N == 0 && !defined(START_NEW)) && !(defined(START_NEW) && (OP >= 2 && OP <= 5))
   VACUITY(r == ECONF_SUCCESS, "success reachable");
 #endif
 #if OP != 4
